@@ -44,8 +44,9 @@ func vp10Payload(name string) []byte {
 	nsym := vp.Param("sym")
 	sympos := vp.Param("sympos")
 	data := make([]byte, plen)
+	symat := vp.Param("symat") // sympos 2: the symbolic bytes start at this absolute offset
 	for i := range data {
-		if (sympos == 0 && i < nsym) || (sympos == 1 && i >= len(data)-nsym) {
+		if (sympos == 0 && i < nsym) || (sympos == 1 && i >= len(data)-nsym) || (sympos == 2 && i >= symat && i < symat+nsym) {
 			data[i] = vp.Byte(name)
 		} else {
 			data[i] = byte(i*37 + 11)
